@@ -960,9 +960,12 @@ def run_setup(b):
     def gather(interp, st, args, kwargs):
         bad = st.copy()
         bad.emit('gather_failed')
-        yield bad, Raised(Exc('AnyError'))
+        if kwargs.get('return_exceptions', False) is False:
+            yield bad, Raised(Exc('AnyError'))
+        else:
+            yield bad, bad.new_py('list', [Exc('AnyError')])      # the failure comes back as a result
         st.emit('gather_ok')
-        yield st, None
+        yield st, st.new_py('list', [None])
 
     b.bind('asyncio', Obj('asyncio', gather=Model('asyncio.gather', gather)))
     b.bind('abort', Obj('abort', set=Model('abort.set', lambda i, s, a, k: (s.emit('abort_set'), iter([(s, None)]))[1])))
